@@ -108,12 +108,13 @@ func writeUnionClasses(w *formatting.IndentedWriter, td dsl.TypeDefinition, unio
 		case *dsl.GeneralizedType:
 			if node.Cases.IsUnion() {
 				unionClassName, typeParameters := common.UnionClassName(node)
+				if nt, isNamedType := td.(*dsl.NamedType); isNamedType && nt.Type == dsl.Type(node) {
+					// This is a named type defining a union, so we will use the named type's name instead
+					// (a union nested somewhere inside the named type keeps its own name); it gets its own
+					// class even if a union with the same cases has already been generated
+					unionClassName = td.GetDefinitionMeta().Name
+				}
 				if _, ok := unions[unionClassName]; !ok {
-					if nt, isNamedType := td.(*dsl.NamedType); isNamedType && nt.Type == dsl.Type(node) {
-						// This is a named type defining a union, so we will use the named type's name instead
-						// (a union nested somewhere inside the named type keeps its own name)
-						unionClassName = td.GetDefinitionMeta().Name
-					}
 					if len(unions) == 0 {
 						w.WriteStringln("_T = typing.TypeVar('_T')\n")
 					}
